@@ -567,9 +567,13 @@ func shake(c *hx.Ctx) {
 			what = "timeout: " + what
 		}
 	}
-	t, _ := certTerm(der)
+	t, parsed := certTerm(der)
+	rawTerm := t
+	if parsed {
+		rawTerm = hx.App("RawCert", t)
+	}
 	desc := map[string]any{"kind": "handshake", "recipe": fmt.Sprintf("%+v", r), "holds_cert_key": holds, "expected_peer": exp, "link_remote": obs, "error": what}
-	c.Case(hx.App("Shake", hx.Z(int64(exp)), hx.App("mkAttempt", hx.List([]string{hx.App("RawCert", t)}), hx.Bool(holds)), hx.Z(obs)), desc)
+	c.Case(hx.App("Shake", hx.Z(int64(exp)), hx.App("mkAttempt", hx.List([]string{rawTerm}), hx.Bool(holds)), hx.Z(obs)), desc)
 	c.Nontrivial(fmt.Sprintf("h%d%v%+v", exp, holds, r))
 	if obs >= 0 {
 		// the C03 statement itself
